@@ -7,6 +7,7 @@ CFG = {
         J("scaled", "c08", shard=12, timeout=2400, imports="Base Stream Inst Run RunC08"),
         J("prod", "c08", timeout=2400),
         J("scaled", "c08-stack"),
+        J("scaled", "c13-hdr", imports="Base Stream Inst Run RunHdr"),
     ],
     "rule": "valid archives < 2 KiB in all 4 layer combinations (scaled and production constants), then 1-3 structured mutations each: "
             "truncation at any length, bit flip, byte substitution {00,01,7f,80,fe,ff}, 4/8-byte field overwrite at any offset with "
@@ -26,9 +27,17 @@ CFG = {
                    "length. correspondence: no panic / abort / hang / allocation above 8 MiB (40 MiB with compression; 64 MiB at production "
                    "constants) + 64*|input| on every generated input, and on a sample (layers none / encrypt, scaled) the outcome rows of "
                    "hist_plain / hist_enc / repair_plain / repair_enc equal the implementation's",
-    "run_modules": ["RunC08"],
+    "run_modules": ["RunC08", "RunHdr"],
     "assumptions": ["fewer than 2^32 chunks per encrypted stream (input < 2^32 * (CHUNK+TAG) bytes, 512 TiB at production constants)",
                     "the compression reader is modelled with the decoder as a function of the whole compressed block (TotalComp*.v: totality over any bytes and any sizes table); the brotli decoder itself is outside the model (D22 lives there) and is covered by the direct oracle only",
                     "c08-stack is oracle-only: on an encrypted stream with an unverifiable chunk the model reports the inner error when the decompressor is created, the code at the first read reaching the chunk",
                     "allocation is measured, not proved, for the implementation; the model bound is on the footer (the only input-sized allocation above the layers)"],
 }
+
+# work package hdrsrc
+CFG["rule"] += ("; c13-hdr (scaled): the header stage alone (ArchiveHeader::from) on every truncation of a header and on hostile headers (magic, "
+                "version, Option tag, layers, key count up to 2^64-1) through short-read sources: no panic, error class and bytes consumed == model")
+CFG["explanation"] += (" || header (props/C08.v C08_header_total): over ANY bytes and any source refining a cursor over them the streamed header read "
+                "ends in Ok or one of UnexpectedEof / WrongMagic / UnsupportedVersion / DeserializationError, never a Crash site, never out of the "
+                "model's fuel (the key-table loop is bounded by the bincode limit: 48 bytes are charged per entry), consumes at most 7 + limit bytes, "
+                "and an accepted header's key table is at most the limit")
